@@ -17,6 +17,7 @@ from simplify import alpha
 
 ID = "C01"
 THEOREMS = ["chain_backend", "backend_preserves", "den_to_denLz", "chain_den", "chain_built", "backend_front_preserves", "chain_backend_front_partial"]
+LEANCHECKER_MODULES = ["Fadl.Props.C01Full", "Fadl.Lemmas.StrictLazy", "Fadl.Props.C01"]  # re-checked by leanchecker in the thorough tier
 RULE = (
     "generated programs (gen/program.py): trees of 1-6 Select/Where/SelectMany calls with branching from shared parents "
     "and inner streams also asked for their value; lambdas as Python callables in a generated module file (captured module "
